@@ -240,8 +240,14 @@ package dawn
 
 // envUnpickler meets the interface contract of pickle.Unpickler: success comes with a value.
 //@ func dawn.envUnpickler
+//@   deterministic
 //@   requires args-nonnil: forall i: int :: 0 <= i && i < len(args) ==> args[i] != nil
 //@   ensures  value-or-error: result.1 == nil ==> result.0 != nil
+//@   ensures  code-keeps-all: (module == "dawn" && name == "FunctionCode" && result.1 == nil) ==> (istype(result.0, "*starlark.Dict") && dvals[result.0.(*starlark.Dict)][ifaceas("starlark.String", "names")] == args[0].(starlark.Tuple)[0] && dvals[result.0.(*starlark.Dict)][ifaceas("starlark.String", "constant values")] == args[0].(starlark.Tuple)[1] && dvals[result.0.(*starlark.Dict)][ifaceas("starlark.String", "function values")] == args[0].(starlark.Tuple)[4] && dvals[result.0.(*starlark.Dict)][ifaceas("starlark.String", "code")] == args[2])
+//@   ensures  code-has-env-keys: (module == "dawn" && name == "FunctionCode" && result.1 == nil) ==> (dkeys[result.0.(*starlark.Dict)][ifaceas("starlark.String", "predeclared values")] && dkeys[result.0.(*starlark.Dict)][ifaceas("starlark.String", "universal values")] && dkeys[result.0.(*starlark.Dict)][ifaceas("starlark.String", "global values")])
+//@   ensures  function-keeps-all: (module == "dawn" && name == "Function" && result.1 == nil) ==> (result.0 == args[2] && istype(result.0, "*starlark.Dict") && dkeys[result.0.(*starlark.Dict)][ifaceas("starlark.String", "default parameter values")] && dkeys[result.0.(*starlark.Dict)][ifaceas("starlark.String", "free variables")])
+//@   ensures  target-is-its-label: (module == "dawn" && name == "Target" && result.1 == nil) ==> (len(args) == 1 && result.0 == args[0])
+//@   ensures  builtin-keeps-name: (module == "dawn" && name == "Builtin" && result.1 == nil) ==> (istype(result.0, "starlark.Tuple") && result.0.(starlark.Tuple) == args)
 //@   modifies heap, dkeys, dvals
 
 // A record that does not parse is an error, never an empty record.
@@ -422,6 +428,11 @@ package dawn
 //@   deterministic
 //@   modifies heap, olen, obytes, ipos, dkeys, dvals
 
+// makeDictFromAssociationList only fills a dict of its own.
 //@ func dawn.makeDictFromAssociationList
 //@   deterministic
-//@   modifies heap, dkeys, dvals
+//@   ensures result != nil
+//@   ensures others-untouched: forall d: ref :: old(allocated(d)) ==> (dkeys[d] == old(dkeys)[d] && dvals[d] == old(dvals)[d])
+//@   modifies dkeys, dvals
+//@   loop 0: invariant dict != nil && !old(allocated(dict))
+//@   loop 0: invariant others-untouched: forall d: ref :: old(allocated(d)) ==> (dkeys[d] == old(dkeys)[d] && dvals[d] == old(dvals)[d])
